@@ -32,6 +32,7 @@ type c05Scn struct {
 	MaxServers int      `json:"maxServers"`
 	Par        int      `json:"par"`
 	ServerFail bool     `json:"serverFail"` // the server under test fails to start (every batch)
+	SrvFault   string   `json:"srvFault"`   // wrapper fault spec (overrides ServerFail): none:<ms> | failstart:1 | garbage:<ms>
 }
 
 type c05Batch struct {
@@ -139,6 +140,9 @@ func c05RunOne(dir string, id int, scn c05Scn) (out c05Out) {
 	srvFault := "none"
 	if scn.ServerFail {
 		srvFault = "failstart:1"
+	}
+	if scn.SrvFault != "" {
+		srvFault = scn.SrvFault
 	}
 	flags := &Flags{
 		Verbose:       true, // batches are started in sorted instance order
